@@ -34,7 +34,7 @@ COMPONENTS = {
     "simulated": ["the caller: seeded interleaving of live occurrence generators", "memo loss / pre-warming, object copies"],
 }
 ASSUMPTIONS = ["reference = all index combinations filtered by order-isomorphism (ref/patterns.py)"]
-EXPECTED_PROBES = ["memo_hit_other_target", "interleaved_same_object", "memo_flush", "shared_to_standard_object",
+EXPECTED_PROBES = ["guided_interrupt", "memo_hit_other_target", "interleaved_same_object", "memo_flush", "shared_to_standard_object",
                    "copy_after_use", "empty_pattern", "pattern_longer_than_target", "colours", "occurrence_ends_at_last_index", "interrupted_call", "pattern_object_address_reused", "derived_from_used_object", "used_inside_mesh_pattern"]
 
 
